@@ -58,6 +58,28 @@ func C02(c *ev.Ctx) {
 					"order": append([]AnchOp{}, p...), "published": pubs, "published_first_order": firstPub, "unpublished": unpubs, "unpublished_first_order": firstUnpub})
 			}
 		})
+		// the same set of operations, partly supplied through the AdditionalOperations resolution option: every split
+		if !bad && len(cs.Ops) > 0 {
+			for mask := 1; mask < 1<<uint(len(cs.Ops)); mask++ {
+				extra := make([]bool, len(cs.Ops))
+				for b := range cs.Ops {
+					extra[b] = mask&(1<<uint(b)) != 0
+				}
+				for _, dup := range []bool{false, true} {
+					got, _, _ := e.ResolveSplit(cs.Ops, extra, dup)
+					atomic.AddInt64(&orders, 1)
+					if !got.Equal(cs.Res) {
+						c.Violation(classify("additional-operations-change-result", e, cs.Ops, cs.Res, got), map[string]interface{}{"store": e.Describe(cs.Ops),
+							"supplied_as_additional": extra, "also_left_in_store": dup, "observed": got, "expected": cs.Res})
+						bad = true
+						break
+					}
+				}
+				if bad {
+					break
+				}
+			}
+		}
 		if i%5000 == 3 {
 			c.AddSample(map[string]interface{}{"ops": cs.Ops, "orders_tried": k, "real": first, "spec": cs.Res})
 		}
@@ -67,7 +89,7 @@ func C02(c *ev.Ctx) {
 	c.Cov.DistinctNontrivial = nt
 	c.Cov.Exhaustive = true
 	c.Cov.Extra["stores"] = replayed
-	c.Cov.Rule = "every store of <= MaxOps operations (published or unpublished) over competing valid updates/recovers per commitment, duplicate creates and a deactivate, at coordinates with non-monotone transaction numbers; for each store every permutation of the store's return order is replayed through the real processor; verdict: all orders give the same view and operation lists, equal to the specification's earliest-wins result. Non-trivial: >= 2 candidates for one commitment, >= 2 creates, or published+unpublished mixed."
+	c.Cov.Rule = "every store of <= MaxOps operations (published or unpublished) over competing valid updates/recovers per commitment, duplicate creates and a deactivate, at coordinates with non-monotone transaction numbers; for each store every permutation of the store's return order is replayed through the real processor; verdict: all orders give the same view and operation lists, equal to the specification's earliest-wins result; in addition every split of the set into operations served by the stores and operations supplied through the AdditionalOperations resolution option (published ones optionally left in the store as well) must give the same result. Non-trivial: >= 2 candidates for one commitment, >= 2 creates, or published+unpublished mixed."
 	c.Assume = append(c.Assume, "the store order is modelled by the order of the slices handed to the processor by the published and unpublished stores")
 	c.Finish("model_checking")
 }
